@@ -104,11 +104,9 @@ package interpreter
 //@ schema bitop_native(T=Word64Value, bits=64, signed=false)
 
 // ---- bitwise operators and shifts of the 128/256-bit integer types (C14)
-//@ func truncate
-//@   assumed
-//@   requires x != nil && big(x) >= 0 && maxWords >= 0 && maxWords <= 8
-//@   modifies big(x)
-//@   ensures big(x) == emod(old(big(x)), pow2n(64 * maxWords, 520)) && result == x
+// truncate: verified (no longer assumed), once per word count in use
+//@ schema truncate(W=2)
+//@ schema truncate(W=4)
 //@ func toTwosComplement
 //@   inline
 //@ func fromTwosComplement
